@@ -8,12 +8,13 @@ use serde::{Deserialize, Serialize};
 use serde_json::json;
 use std::time::Duration;
 
-pub const RULE: &str = "the spin options and their ranges are read from the engine's own 'uci' answer (name, min, max - not hard-coded). A session = 2-12 steps over {setoption <spin option> value v with v in {min, min+1, default, max-1, max, interior values}, isready, position <generated game>, go depth 2-4 (also with clocks after Move Overhead was set)} in any order, before and between searches, then quit. Oracle on the shipped binary: every isready is answered by readyok; every go by exactly one bestmove that is legal in the position (reference model); nothing that looks like the panic hook's output; after quit the process exits with status 0. In-process twin (checked build): tt.resize(v) for boundary and interior sizes followed by a search. Non-trivial = session that searches after setting Hash to a boundary value or after two different Hash values; distinct by session.";
+pub const RULE: &str = "the spin options and their ranges are read from the engine's own 'uci' answer (name, min, max - not hard-coded). A session = 2-12 steps over {setoption <spin option> value v with v in {min, min+1, default, max-1, max, interior values}, isready, ucinewgame, position <generated game>, go depth 2-4 (also with clocks after Move Overhead was set)} in any order, before and between searches, then quit. Oracle on the shipped binary: every isready is answered by readyok; every go by exactly one bestmove that is legal in the position (reference model); nothing that looks like the panic hook's output; after quit the process exits with status 0. In-process twin (checked build): tt.resize(v) for boundary and interior sizes followed by a search. Non-trivial = session that searches after setting Hash to a boundary value or after two different Hash values; distinct by session.";
 
 #[derive(Serialize, Deserialize, Clone, Debug, PartialEq)]
 pub enum Step {
     Set { option: String, value: u64 },
     IsReady,
+    NewGame,
     Position { fen: String, moves: Vec<String> },
     Go { depth: u8, clocks: Option<(u32, u32)> },
 }
@@ -79,8 +80,18 @@ fn from_tape(data: &[u16], spins: &[Spin]) -> Vec<Step> {
                 // Hash is the interesting one: weight it up
                 let s = if t.pick(3) != 0 { spins.iter().find(|s| s.name == "Hash").unwrap_or(&spins[0]) } else { &spins[t.pick(spins.len())] };
                 steps.push(Step::Set { option: s.name.clone(), value: pick_value(&mut t, s) });
+                // often use the new value at once: (ucinewgame,) (isready,) go
+                if t.pick(2) == 0 {
+                    if t.pick(2) == 0 {
+                        steps.push(Step::NewGame);
+                    }
+                    if t.pick(3) == 0 {
+                        steps.push(Step::IsReady);
+                    }
+                    steps.push(Step::Go { depth: 2 + t.pick(3) as u8, clocks: None });
+                }
             }
-            3 => steps.push(Step::IsReady),
+            3 => steps.push(if t.pick(2) == 0 { Step::IsReady } else { Step::NewGame }),
             4 => {
                 if let Some((fen, moves, _, _)) = gen_game(&mut t, 2, 8) {
                     steps.push(Step::Position { fen, moves });
@@ -139,6 +150,11 @@ fn run_session(steps: &[Step], spins: &[Spin], st: &mut Stats) -> Result<(), Fai
                         Err(x) => return Err(fail(&e, "option:no_readyok", x)),
                     }
                 }
+            }
+            Step::NewGame => {
+                e.send("ucinewgame").map_err(|x| fail(&e, "option:engine_died", x))?;
+                cur = crate::refchess::Pos::start();
+                st.class("ucinewgame_in_session");
             }
             Step::Position { fen, moves } => {
                 let spec = SearchSpec { fen: fen.clone(), moves: moves.clone(), limit: Limit::Depth(1) };
